@@ -23,7 +23,7 @@ pub mod f64 {
     #[cfg(not(feature = "std"))]
     pub fn sqrt(x: f64) -> f64 {
         if x >= 0.0 {
-            f64::from_bits((x.to_bits() + 0x3f80_0000) >> 1)
+            f64::from_bits((x.to_bits() + 0x3ff0_0000_0000_0000) >> 1)
         } else {
             f64::NAN
         }
